@@ -938,7 +938,14 @@ class Constraints:
         # delta: 3
 
         if decimals >= delta:
-            return round(value, decimals - delta)
+            value = round(value, decimals - delta)
+            digits, decimals = cls._parse_decimal(value)
+            if digits > max_digits:
+                # rounding carried into a new digit (9.99 -> 10.0): drop one more place
+                if not decimals:
+                    raise ValueError
+                value = round(value, decimals - 1)
+            return value
         raise ValueError
 
     @classmethod
